@@ -4,6 +4,7 @@
 # passes on the unchanged tree, (2) with the patch the repository builds and its own suite passes,
 # (3) with the patch the demonstration fails; then (4) applies the patch to /repo, runs all 18 quick
 # checks, and undoes it straight afterwards.
+export UHLINT_EVIDENCE_DIR=$(mktemp -d /tmp/uhlint-ev.XXXXXX)  # never overwrite /verif/evidence from a modified tree
 set -u
 export GOFLAGS=-mod=mod GOPROXY=off GOSUMDB=off GOTOOLCHAIN=local; unset GOWORK
 wt=$1; patch=$2; demo=$3; dest=$4; shift 4
